@@ -8,7 +8,7 @@
      seqrows  __corro_seq_bookkeeping per version
      needed/max  the in-memory bookkeeping process_sync consults *)
 From Coq Require Import List ZArith Bool.
-From Corro Require Import Lib.Ivl Model.Chunk Model.SeqRows Gen.Consts.
+From Corro Require Import Lib.Ivl Model.Chunk Model.SeqRows Gen.Consts Gen.NeedSql.
 Import ListNotations.
 Open Scope Z_scope.
 
@@ -63,8 +63,7 @@ Definition buffered_msgs (sv : srv) (v : Z) (restrict : option (Z * Z)) : list m
     | None => send_chunks (sv_rowsize sv) v last (filter (in_range rs re) buf) rs re
     | Some (qs, qe) =>
       (* the four-case overlap SELECT of the Partial path (no adjacency) *)
-      if ((qs <=? rs) && (rs <=? qe)) || ((rs <=? qs) && (qe <=? re)) ||
-         ((rs <=? qe) && (qe <=? re)) || ((qs <=? re) && (re <=? qe))
+      if need_overlap_pred_src rs re qs qe   (* GENERATED from the SQL text: Gen/NeedSql.v *)
       then let cs := Z.max rs qs in let ce := Z.min re qe in
            send_chunks (sv_rowsize sv) v last (filter (in_range cs ce) buf) cs ce
       else []
